@@ -112,14 +112,18 @@ Proof.
   - exists (mkRow 2 0 1). simpl. split; [right; left; reflexivity|split; reflexivity].
 Qed.
 
-(* positions drift: re-prepending the only child of a chain moves its position down by one each time; the
-   chain never changes, every edit is accepted, and after 32769 of them the position no longer fits the
-   16-bit column the schema declares (SQLite does not enforce the width, PostgreSQL does) *)
-Definition drift_start : st := run init [OReg 0 CRun; OReg 4 CChained; OEdit KRedefine 4 [0%N]].
+(* positions drift: alternately re-prepending the two children of a chain moves the lowest position down by
+   one each time; every edit is accepted and yields the documented order, and after 2 * 16385 of them the
+   positions no longer fit the 16-bit column the schema declares (SQLite does not enforce the width,
+   PostgreSQL does) *)
+Definition drift_start : st :=
+  run init [OReg 0 CRun; OReg 1 CRun; OReg 4 CChained; OEdit KRedefine 4 [0%N; 1%N]].
+Definition is_done (o : outcome) : bool := match o with Done => true | _ => false end.
 Definition drift (n : N) : st * bool :=
-  N.iter n (fun sb => let '(s', o) := step (fst sb) (OEdit KPrepend 4 [0%N]) in
-                      (s', snd sb && match o with Done => true | _ => false end)) (drift_start, true).
+  N.iter n (fun sb => let '(s1, o1) := step (fst sb) (OEdit KPrepend 4 [1%N]) in
+                      let '(s2, o2) := step s1 (OEdit KPrepend 4 [0%N]) in
+                      (s2, snd sb && is_done o1 && is_done o2)) (drift_start, true).
 Lemma position_drift_p :
-  snd (drift 32769) = true /\ children (fst (drift 32769)) 4 = [0%N] /\
-  map rpos (rows (fst (drift 32769))) = [(-32769)%Z].
+  snd (drift 16385) = true /\ children (fst (drift 16385)) 4 = [0%N; 1%N] /\
+  map rpos (rows (fst (drift 16385))) = [(-32769)%Z; (-32770)%Z].
 Proof. vm_compute. repeat split. Qed.
